@@ -59,3 +59,24 @@ theorem apply_cursor (w : String) (st : JState) (r : Rec) : (apply w st r).1.cur
   cases r <;> simp only [apply, reject] <;> (repeat' split) <;> rfl
 
 end OptunaVerif.Journal
+
+namespace OptunaVerif.Journal
+open OptunaVerif OptunaVerif.Storage
+
+/-- replaying a record issued by *another* worker touches neither what this worker owns nor the id
+of the trial this process created last -/
+theorem apply_foreign_local (w : String) (st : JState) (r : Rec) (h : (r.worker == w) = false) :
+    (apply w st r).1.owned.get? w = st.owned.get? w ∧ (apply w st r).1.lastCreated = st.lastCreated := by
+  cases r <;> simp only [Rec.worker] at h <;> simp only [apply, reject, Rec.worker, h] <;>
+    (repeat' split) <;> simp_all
+
+theorem applyAll_foreign_local (w : String) (st : JState) (rs : List Rec) (h : ∀ r ∈ rs, (r.worker == w) = false) :
+    (applyAll w st rs).owned.get? w = st.owned.get? w ∧ (applyAll w st rs).lastCreated = st.lastCreated := by
+  induction rs generalizing st with
+  | nil => exact ⟨rfl, rfl⟩
+  | cons r rs ih =>
+    have h1 := apply_foreign_local w { st with cursor := st.cursor + 1 } r (h r (by simp))
+    have h2 := ih (apply w { st with cursor := st.cursor + 1 } r).1 (fun x hx => h x (by simp [hx]))
+    exact ⟨h2.1.trans h1.1, h2.2.trans h1.2⟩
+
+end OptunaVerif.Journal
